@@ -295,4 +295,91 @@ def finding_key(script, res):
 # decoders as they are used through the framed input queue.  The coded-queue driver, model and generators of
 # C02 are run as an extra part of this check (seeded changes C03-4 and C03-6 live in those two files).
 from . import c02 as _c02  # noqa: E402
-extra_parts = [_c02] + list(getattr(_c02, "extra_parts", []))
+
+
+class _DQF:
+    """third part: arbitrary and malformed bytes fed into the framed input queue ('dq feed'), so that
+    mpt_queue_recv / mpt_queue_peek / mpt_message_read see more than encoder-produced frames"""
+    id = "C03"
+    area = "cqueue"
+    driver = "drv_cqueue"
+    cxx = False
+    fixed_lines = 1
+
+    @staticmethod
+    def corpus(chk):
+        return [(n, s) for n, s in gen.corpus(id) if s and s[0].startswith("dq new")]
+
+    @staticmethod
+    def scripts(tier, seed, scale=1):
+        out = []
+        r = gen.rng(id, tier, seed, "dqfeed")
+
+        def recv_ops(n, codec):
+            ops = []
+            for _ in range(n):
+                ops.append(r.choice(["dq recv", "dq recv", "dq drain", "dq msg", "dq peek 4", "dq peek 100 nodst", "dq shift"]))
+            if codec == "command":
+                # mpt_queue_peek on command text: the C02 model of queue_peek takes the raw path there (reported to its owner)
+                ops = [o for o in ops if not o.startswith("dq peek")]
+            return ops
+        # every string over the boundary alphabet up to length 3, fed at once and byte by byte, rings with wrap offsets
+        if tier == "quick":
+            strs = strings(2) + [[r.choice(ALPHA) for _ in range(r.choice([3, 3, 4]))] for _ in range(350 * scale)]
+        else:
+            strs = strings(4)
+        for codec in DECODERS:
+            for k, x in enumerate(strs):
+                if not x:
+                    continue
+                mx = 16
+                new = "dq new %s max=%d off=%d align=%d" % (codec, mx, (k * 5) % (mx + 1), k % 16)
+                runs = ["dq recv"] * (2 + x.count(0))
+                out.append(("dqf:%s:%s" % (codec, gen.hexs(x)), [new, "dq feed " + gen.hexs(x)] + runs + ["dq msg", "dq drain"]))
+                if len(x) > 1:
+                    lines = [new]
+                    for b in x:
+                        lines += ["dq feed " + gen.hexs([b]), "dq recv"]
+                    out.append(("dqb:%s:%s" % (codec, gen.hexs(x)), lines + ["dq recv", "dq drain"]))
+        # mutated valid frames (several per stream), random pieces, small and large rings, growth on request
+        n = (150 if tier == "quick" else 2500) * scale
+        for k in range(n):
+            codec = r.choice(DECODERS + ["command"])
+            data = []
+            for _ in range(r.choice([1, 2, 3, 5])):
+                m = c01.structured(r, codec)[:r.choice([3, 12, 40])]
+                if codec == "command":
+                    f = [b or 0x2e for b in m] + [0]
+                else:
+                    f = ref_encode(codec, m)
+                data.extend(mutate(r, f) if r.random() < 0.7 else f)
+            mx = r.choice([8, 16, 64, 300])
+            lines = ["dq new %s max=%d off=%d align=%d" % (codec, mx, r.randrange(mx + 1), r.randrange(16))]
+            pos = 0
+            while pos < len(data):
+                step = r.choice([1, 1, 2, 3, 7, 20])
+                lines.append("dq feed " + gen.hexs(data[pos:pos + step]))
+                pos += step
+                lines += recv_ops(r.choice([0, 1, 1, 2]), codec)
+                if r.random() < 0.15:
+                    mx += r.choice([1, 8, 64])
+                    lines.append("dq grow %d" % mx)
+            lines += ["dq drain", "dq recv", "dq msg", "dq drain"]
+            out.append(("dqr:%s:%d" % (codec, k), lines))
+        return out
+
+    @staticmethod
+    def nontrivial(script, c_lines):
+        # the input queue reported an error for fed bytes, or delivered a message after one
+        return any(ln.startswith("R ret=") and ln[6:].split()[0] in ("BadValue", "MissingData", "MissingBuffer") for ln in c_lines) or \
+            any("last=BadValue" in ln or "last=MissingData" in ln for ln in c_lines)
+
+    @staticmethod
+    def tally(chk, script, c_lines):
+        d = chk.__dict__.setdefault("distribution", {})
+        d["dqfeed"] = d.get("dqfeed", 0) + 1
+
+    finding_key = staticmethod(lambda script, res: finding_key(script, res))
+
+
+extra_parts = [_c02] + list(getattr(_c02, "extra_parts", [])) + [_DQF]
